@@ -12,7 +12,7 @@ const RULE13: &str = "cases = (original string, base offset for with_start_offse
 const RULE14: &str = "cases = (original string, base offset, sequence of Parser operations); C14 oracle per step = a model that applies the std string function to the previous remainder (strip_prefix/suffix, trim_ascii*, trim_*_matches, find/rfind, split_once/rsplit_once, the integer/bool prefix scanner): Ok <=> the function finds something, returned value and new remainder equal the model's (by address), Err returns no parser; split/rsplit/split_keep yield the final piece once and then ErrorKind::SplitExhausted, split_terminator/rsplit_terminator need a delimiter; plus whole-protocol runs: repeating split(p)/rsplit(p) == str::split/rsplit pieces then SplitExhausted, split_terminator/rsplit_terminator == each piece followed/preceded by a delimiter then Err; non-trivial = history of >= 2 ops where some op failed and a later one succeeded, or a split protocol reaching its last piece, or an op mixing ends; distinct by (original, base, history)";
 
 #[derive(Serialize, Deserialize, Debug, Clone, Hash, PartialEq)]
-enum Pat {
+pub enum Pat {
     S(String),
     C(char),
 }
@@ -26,7 +26,7 @@ impl Pat {
 }
 
 #[derive(Serialize, Deserialize, Debug, Clone, Hash, PartialEq)]
-enum Op {
+pub enum Op {
     Trim,
     TrimStart,
     TrimEnd,
@@ -65,7 +65,7 @@ impl Op {
 }
 
 #[derive(Serialize, Deserialize, Debug, Clone, Hash)]
-struct Case {
+pub struct Case {
     orig: String,
     base: usize,
     ops: Vec<Op>,
@@ -424,18 +424,19 @@ fn dir_of(e: End) -> ParseDirection {
     }
 }
 
-struct Walk {
-    moved_start: bool,
-    moved_end: bool,
-    err_then_ok: bool,
-    saw_err: bool,
-    err_with_base: bool,
-    both_trim_both_ends: bool,
-    last_piece: bool,
+#[derive(Default)]
+pub struct Walk {
+    pub moved_start: bool,
+    pub moved_end: bool,
+    pub err_then_ok: bool,
+    pub saw_err: bool,
+    pub err_with_base: bool,
+    pub both_trim_both_ends: bool,
+    pub last_piece: bool,
 }
 
 /// interprets the history; `c13`: assert the C13 oracle, otherwise the C14 oracle
-fn run_case(c: &Case, c13: bool, w: &mut Walk) -> Result<(), String> {
+pub fn run_case(c: &Case, c13: bool, w: &mut Walk) -> Result<(), String> {
     let orig = c.orig.as_str();
     let base = c.base;
     let mut p = if base == 0 { Parser::new(orig) } else { Parser::with_start_offset(orig, base) };
@@ -752,7 +753,7 @@ fn explore(ctx: &mut Ctx, c13: bool) {
     });
 }
 
-fn fold_case((syms, b, ops): &(Vec<usize>, usize, Vec<(usize, usize, usize)>)) -> Case {
+pub fn fold_case((syms, b, ops): &(Vec<usize>, usize, Vec<(usize, usize, usize)>)) -> Case {
     const SYM: [&str; 8] = ["a", ",", " ", "é", "1", "-", "true", "漢"];
     let orig: String = syms.iter().map(|&i| SYM[i]).collect();
     let base = [0usize, 1, 1000, 1 << 31][*b];
